@@ -76,4 +76,53 @@ let case (line : string) : string =
       Buffer.contents buf
   | _ -> failwith "bad case"
 
-let () = iter_lines (fun l -> print_string (try case l with Failure m -> "MODEL-ERROR " ^ m); print_newline ())
+(* mode "mon": a trace in the canonical format (the implementation's own, harness-only
+   upper-case tokens W G H Q U K M skipped) is parsed back into events and judged by the
+   extracted checker Spec/StreamReadSpec.v [monitor]; prints four 0/1 digits:
+   exact stream, alloc paired, silent until restart, no NULL call *)
+let parse_event (tok : string) : event option =
+  let arg = String.sub tok 1 (String.length tok - 1) in
+  let nat_ s = nat_of_int (int_of_string s) in
+  match tok.[0] with
+  | 'W' | 'G' | 'H' | 'Q' | 'U' | 'K' | 'M' -> None
+  | 'P' -> Some (EPoll (z_of_string arg))
+  | 'A' ->
+      let arg = if String.length arg > 0 && arg.[0] = '!' then String.sub arg 2 (String.length arg - 2) else arg in
+      if arg = "?" then Some (EAlloc (nat_of_int 60001, z_of_int 0, { b_base = true; b_len = z_of_int 1 }))
+      else (match String.split_on_char ',' arg with
+            | [id; sug; base; len] ->
+                Some (EAlloc (nat_ id, z_of_string sug, { b_base = (base = "1"); b_len = z_of_string len }))
+            | _ -> failwith ("bad alloc token " ^ tok))
+  | 'k' ->
+      (match String.split_on_char ':' arg with
+       | [len; rest] ->
+           (match String.split_on_char '@' rest with
+            | [a; off] -> Some (ESys (z_of_string len, parse_ans a, z_of_string off))
+            | _ -> failwith ("bad syscall token " ^ tok))
+       | _ -> failwith ("bad syscall token " ^ tok))
+  | 'r' ->
+      (match String.split_on_char ':' arg with
+       | [t; nread; b; ch] ->
+           let bufo = if b = "-" then None else if b = "?" then Some (nat_of_int 60002) else Some (nat_ b) in
+           (match String.split_on_char ',' ch with
+            | [off; len] -> Some (ERead (nat_ t, z_of_string nread, bufo, z_of_string off, z_of_string len))
+            | _ -> failwith ("bad read token " ^ tok))
+       | _ -> failwith ("bad read token " ^ tok))
+  | 's' -> Some (ERet (nat_of_int 0, z_of_string arg))
+  | 't' -> Some (ERet (nat_of_int 1, z_of_string arg))
+  | 'c' -> Some (ERet (nat_of_int 2, z_of_string arg))
+  | 'x' -> Some ECloseCb
+  | 'f' -> Some (EFlags (arg.[0] = '1', arg.[1] = '1', arg.[2] = '1'))
+  | '!' -> Some ECrash
+  | _ -> failwith ("bad trace token " ^ tok)
+
+let mon (line : string) : string =
+  let tr = List.filter_map parse_event (split_on ' ' line) in
+  let (((e, p), s), c) = monitor tr in
+  let d b = if b then "1" else "0" in
+  d e ^ d p ^ d s ^ d c
+
+let () =
+  let f = if Array.length Sys.argv > 1 && Sys.argv.(1) = "mon" then mon else case in
+  iter_lines (fun l -> print_string (try f l with Failure m -> "MODEL-ERROR " ^ m | Not_found -> "MODEL-ERROR parse"
+                                                | Invalid_argument m -> "MODEL-ERROR " ^ m); print_newline ())
